@@ -99,3 +99,25 @@ Proof. intros H. induction H; cbn; lia. Qed.
 (* rendering for the correspondence runs *)
 Definition sizes (w : widths) (m : list slayer) : list Z :=
   model_size w m :: flat_map (fun l => [param_size w l; act_size w l]) m.
+
+(* ---- activation descriptors as the CODE sees them (tools/translate/sizegen.py): what kind of Python object layer.activation is ---- *)
+Inductive aname := NLinear | NSoftmax | NSigmoid | NOther.
+Inductive adesc :=
+| DNone                                   (* layer.activation is None *)
+| DStr (n : aname)                        (* a plain activation given as a string *)
+| DFunc (n : aname)                       (* a function object (has __name__, no bits) *)
+| DQuantObj (bits : option Z)             (* a quantizer object (no __name__; bits when it has the attribute) *)
+| DQuantStr (bits : option Z).            (* a quantizer given as a string (QActivation only): get_quantizer(text) *)
+Inductive lkind := KInput | KPlain | KQuantized | KActivation | KOtherLayer.
+Definition skind_of (k : lkind) : skind :=
+  match k with KInput => SInput | KPlain => SPlain | KQuantized => SQuantized | KActivation => SActivation | KOtherLayer => SOther end.
+Definition sact_of_name (n : aname) : sact :=
+  match n with NLinear => SLinear | NSoftmax => SSoftmax | NSigmoid => SSigmoid | NOther => SPlainNonlinear end.
+Definition sact_of (a : adesc) : sact :=
+  match a with
+  | DNone => SNone | DStr n => sact_of_name n | DFunc n => sact_of_name n
+  | DQuantObj b => SQuant b | DQuantStr b => SQuant b
+  end.
+(* the size the model assigns to the output of a layer of kind k whose activation is described by a *)
+Definition act_size_of (k : lkind) (a : adesc) (w : widths) (out : Z) : Z :=
+  act_size w (SL (skind_of k) [] out (sact_of a) true true).
